@@ -52,7 +52,9 @@ META = {
 }
 
 _STR = re.compile(rb'"(?:[^"\\]|\\.)*"')
-_ADJ = re.compile(rb'(?:true|false|null|-?(?:0|[1-9][0-9]*)(?:\.[0-9]+)?(?:[eE][+-]?[0-9]+)?)(?=[^ \t\n\r"\[\]{},:])')
+# a literal name or a whole number (matched atomically: no giving back digits) directly followed by a byte that is neither
+# white space nor structural
+_ADJ = re.compile(rb'(?:true|false|null|(?=(?P<num>-?(?:0|[1-9][0-9]*)(?:\.[0-9]+)?(?:[eE][+-]?[0-9]+)?))(?P=num))(?=[^ \t\n\r"\[\]{},:])')
 
 
 def json_adjacent_scalars(data):
@@ -182,11 +184,13 @@ def run_sessions(outcome, tier, seed):
             same = s[0] == r[0] and (s[2] == r[2] if s[0] == "ok" else shared.is_prefix_comparable(s[2], r[2]))
             if same:
                 continue
-            is_json = frm == "json" or (frm is None and (data.lstrip()[:1] in b'{["-0123456789tfn' or True))
-            if is_json and json_adjacent_scalars(data) and (frm == "json" or frm is None):
+            # the two listed classes, by their signature and not merely by the look of the input: the slice path rejects adjacent
+            # JSON scalars as trailing characters where the reader path reads on; a repeated key reaches TOML from a slice only
+            if frm in ("json", None) and json_adjacent_scalars(data) and s[0] == "err" and "trailing characters" in s[1] \
+                    and (r[0] == "ok" or "trailing characters" not in r[1]):
                 known["K-C02-json-adjacent-scalars"] += 1
                 continue
-            if to == "toml" and (frm == "json" or frm is None) and json_dup_key(data):
+            if to == "toml" and frm in ("json", None) and json_dup_key(data) and s[0] == "ok" and r[0] == "err" and "duplicate key" in r[1]:
                 known["K-C02-json-dupkey-toml"] += 1
                 continue
             outcome.oracle_failures.append({
